@@ -1,0 +1,212 @@
+//go:build verif
+
+// Package verifapi is a verification-only window onto fin-protoc's internal
+// packages. It is compiled only with the build tag "verif" and changes no
+// behaviour of the compiler, the formatter or the command line tools: it only
+// lets an external harness call the same parse / generate / format steps the
+// CLI performs, in-process, and take a deep snapshot of the parsed model.
+package verifapi
+
+import (
+	"fmt"
+	"reflect"
+	"runtime/debug"
+	"sort"
+	"strings"
+
+	"github.com/xinchentechnote/fin-protoc/internal/model"
+	"github.com/xinchentechnote/fin-protoc/internal/parser"
+)
+
+// Diagnostic is one semantic diagnostic recorded in the model.
+type Diagnostic struct {
+	Line   int
+	Column int
+	Msg    string
+}
+
+// PanicInfo describes a recovered panic.
+type PanicInfo struct {
+	Value string
+	Stack string
+}
+
+// Handle wraps one parsed model.
+type Handle struct {
+	m *model.BinaryModel
+}
+
+func recovered(r interface{}) *PanicInfo {
+	return &PanicInfo{Value: fmt.Sprint(r), Stack: string(debug.Stack())}
+}
+
+// Parse performs the same steps as parser.ParseFile on a string.
+// synErr is non-empty when the ANTLR recogniser reported syntax errors.
+func Parse(text string) (h *Handle, diags []Diagnostic, synErr string, p *PanicInfo) {
+	defer func() {
+		if r := recover(); r != nil {
+			h = nil
+			p = recovered(r)
+		}
+	}()
+	prs, _, err := parser.NewPacketDslParserByContent(text)
+	if err != nil {
+		return nil, nil, err.Error(), nil
+	}
+	listener := parser.NewSyntaxErrorListener()
+	prs.RemoveErrorListeners()
+	prs.AddErrorListener(listener)
+	tree := prs.Packet()
+	if listener.HasErrors() {
+		return nil, nil, fmt.Sprintf("syntax errors found: %v", listener.Errors), nil
+	}
+	visitor := parser.NewPacketDslVisitor()
+	res := tree.Accept(visitor)
+	m, ok := res.(*model.BinaryModel)
+	if !ok {
+		return nil, nil, "visitor did not return a model", nil
+	}
+	for _, e := range m.SyntaxErrors {
+		diags = append(diags, Diagnostic{Line: e.Line, Column: e.Column, Msg: e.Msg})
+	}
+	return &Handle{m: m}, diags, "", nil
+}
+
+// Languages lists the generator names accepted by Generate, in CLI order.
+var Languages = []string{"lua", "rust", "go", "java", "python", "cpp"}
+
+// Generate runs one generator over the handle's (shared) model.
+func (h *Handle) Generate(lang string) (files map[string][]byte, err error, p *PanicInfo) {
+	defer func() {
+		if r := recover(); r != nil {
+			files = nil
+			p = recovered(r)
+		}
+	}()
+	switch lang {
+	case "lua":
+		files, err = parser.NewLuaWspGenerator(h.m).Generate(h.m)
+	case "rust":
+		files, err = parser.NewRustGenerator(h.m).Generate(h.m)
+	case "go":
+		files, err = parser.NewGoGenerator(h.m).Generate(h.m)
+	case "java":
+		files, err = parser.NewJavaGenerator(h.m).Generate(h.m)
+	case "python":
+		files, err = parser.NewPythonGenerator(h.m).Generate(h.m)
+	case "cpp":
+		files, err = parser.NewCppGenerator(h.m).Generate(h.m)
+	default:
+		err = fmt.Errorf("unknown language %q", lang)
+	}
+	return
+}
+
+// Format calls the library formatter.
+func Format(text string) (out string, err error, p *PanicInfo) {
+	defer func() {
+		if r := recover(); r != nil {
+			p = recovered(r)
+		}
+	}()
+	out, err = parser.FormatPacketDsl(text)
+	return
+}
+
+// MapOrderCanary ranges over an n-key map and returns the key order seen; it
+// lets a determinism monitor confirm map-order randomisation is active.
+func MapOrderCanary(n int) string {
+	m := make(map[int]struct{}, n)
+	for i := 0; i < n; i++ {
+		m[i] = struct{}{}
+	}
+	var sb strings.Builder
+	for k := range m {
+		fmt.Fprintf(&sb, "%d,", k)
+	}
+	return sb.String()
+}
+
+// Snapshot returns a deep canonical dump of the model: every reachable value,
+// with pointer identities numbered in first-visit order, map keys sorted.
+func (h *Handle) Snapshot() string {
+	var sb strings.Builder
+	ids := map[uintptr]int{}
+	dump(&sb, reflect.ValueOf(h.m), ids, 0)
+	return sb.String()
+}
+
+func dump(sb *strings.Builder, v reflect.Value, ids map[uintptr]int, depth int) {
+	if depth > 200 {
+		sb.WriteString("<deep>")
+		return
+	}
+	switch v.Kind() {
+	case reflect.Invalid:
+		sb.WriteString("nil")
+	case reflect.Ptr:
+		if v.IsNil() {
+			sb.WriteString("nil")
+			return
+		}
+		if id, ok := ids[v.Pointer()]; ok {
+			fmt.Fprintf(sb, "&#%d", id)
+			return
+		}
+		id := len(ids) + 1
+		ids[v.Pointer()] = id
+		fmt.Fprintf(sb, "&#%d=", id)
+		dump(sb, v.Elem(), ids, depth+1)
+	case reflect.Interface:
+		if v.IsNil() {
+			sb.WriteString("nil")
+			return
+		}
+		fmt.Fprintf(sb, "(%s)", v.Elem().Type().String())
+		dump(sb, v.Elem(), ids, depth+1)
+	case reflect.Struct:
+		sb.WriteString(v.Type().Name() + "{")
+		for i := 0; i < v.NumField(); i++ {
+			if v.Type().Field(i).Name == "OffendingSymbol" || v.Type().Field(i).PkgPath != "" {
+				continue
+			}
+			sb.WriteString(v.Type().Field(i).Name + ":")
+			dump(sb, v.Field(i), ids, depth+1)
+			sb.WriteString(";")
+		}
+		sb.WriteString("}")
+	case reflect.Slice, reflect.Array:
+		if v.Kind() == reflect.Slice && v.IsNil() {
+			sb.WriteString("nil[]")
+			return
+		}
+		sb.WriteString("[")
+		for i := 0; i < v.Len(); i++ {
+			dump(sb, v.Index(i), ids, depth+1)
+			sb.WriteString(",")
+		}
+		sb.WriteString("]")
+	case reflect.Map:
+		if v.IsNil() {
+			sb.WriteString("nilmap")
+			return
+		}
+		keys := v.MapKeys()
+		sort.Slice(keys, func(i, j int) bool { return fmt.Sprint(keys[i].Interface()) < fmt.Sprint(keys[j].Interface()) })
+		sb.WriteString("map{")
+		for _, k := range keys {
+			fmt.Fprintf(sb, "%q=>", fmt.Sprint(k.Interface()))
+			dump(sb, v.MapIndex(k), ids, depth+1)
+			sb.WriteString(",")
+		}
+		sb.WriteString("}")
+	case reflect.String:
+		fmt.Fprintf(sb, "%q", v.String())
+	default:
+		if v.CanInterface() {
+			fmt.Fprintf(sb, "%v", v.Interface())
+		} else {
+			fmt.Fprintf(sb, "%v", v)
+		}
+	}
+}
